@@ -501,6 +501,10 @@ def correspondence(ctx):
                 if kind == "qmpt":
                     i2 = drv.ask("circuit", kind, fl, r, n, m, 1, st, pv, sc, vt)
                     pend.append(("circuit-walk", (spec, lab), np.concatenate(S.circuit(obj)), i2))
+                    # the walk with the code's thresholds (eps_zero of the measurement process, atol of
+                    # truncate_and_normalize): boundary candidates take the clipping branch
+                    i3 = drv.ask("circuiteps", fl, r, q(obj.eps_zero), q(eps), n, m, st, pv, sc, vt)
+                    pend.append(("circuit-eps", (spec, lab), np.concatenate(S.circuit(obj)), i3))
                 try:
                     pd = ("ok", [list(x) for x in S.qt.calc_prob_dists(obj)])
                 except ValueError as ex:
@@ -555,7 +559,7 @@ def correspondence(ctx):
         elif op in ("objof",):
             if t[0] != "ok" or not allclose(flat(parse_vecs(t[1])), impl):
                 ctx.disagree(op, inp, list(impl)[:8], out[i][:120])
-        elif op in ("predict", "circuit", "circuit-walk"):
+        elif op in ("predict", "circuit", "circuit-walk", "circuit-eps"):
             vals = None
             if t[0] == "ok":
                 vals = [float(x) for x in unqlist(t[1])] if op == "predict" else flat(parse_vecs(t[1]))
@@ -736,8 +740,9 @@ def check_incomplete(ctx):
 
 
 PARTIAL = [
-    {"theorem": "QM.C08.qmpt_walk_eq_born",
-     "missing": "eps_zero clipping and truncate_and_normalize inside compose_qoperations are not modelled (hypothesis p_x ≠ 0)"},
+    {"theorem": "QM.C08.qmpt_walk_eps_eq_born / qmptCircuitWalkEps_eq",
+     "missing": "proved for unclipped outcomes and proper conditional distributions; the clipping branch (boundary objects) "
+                "and the re-normalisations inside MultinomialDistribution (C16) are covered by the `circuiteps` correspondence only"},
 ]
 
 
